@@ -389,6 +389,22 @@ def _specs(vd, rng, n=None):
     yield "distance_mask_grid", lambda a: vd.distance_mask(a["d"], maxdist=span / 4, grid=a["g"]), {"d": (east, north), "g": grid}
     yield "convexhull_mask", lambda a: vd.convexhull_mask(a["d"], coordinates=a["c"]), {"d": (east, north), "c": (ge * 1.2, gn * 1.2)}
     yield "convexhull_mask_grid", lambda a: vd.convexhull_mask(a["d"], grid=a["g"], projection=proj), {"d": (east, north), "g": grid}
+    # projections that hand (some of) their arguments straight back - identity, "scale the longitude only": what the function then
+    # holds are the caller's own arrays, not fresh ones
+    def passthrough(x, y, inverse=False):  # noqa: U100
+        return x, y
+
+    def half_passthrough(x, y, inverse=False):
+        return (x * 2.0, y) if inverse else (x * 0.5, y)
+
+    for pname, pfun in (("identity", passthrough), ("one_coordinate_returned_as_is", half_passthrough)):
+        yield "convexhull_mask_projection_" + pname, (lambda f: lambda a: vd.convexhull_mask(a["d"], coordinates=a["c"], projection=f))(pfun), {"d": (east, north), "c": (ge * 1.2, gn * 1.2)}
+        yield "distance_mask_projection_" + pname, (lambda f: lambda a: vd.distance_mask(a["d"], maxdist=span / 4, coordinates=a["c"], projection=f))(pfun), {"d": (east, north), "c": (ge, gn)}
+        yield "project_region_" + pname, (lambda f: lambda a: vd.project_region(a["region"], f))(pfun), {"region": np.array(region)}
+        yield "project_grid_" + pname, (lambda f: lambda a: vd.project_grid(a["g"], f, method="nearest"))(pfun), {"g": grid["v"]}
+        yield "Trend.grid_scatter_profile_projection_" + pname, (lambda f: lambda a: (lambda est: (est.grid(region=region, shape=(4, 5), projection=f), est.scatter(region=region, size=12, random_state=seed, projection=f),
+                                                                                     est.profile(a["p1"], a["p2"], 7, projection=f)))(vd.Trend(1).fit(a["c"], a["d"])))(pfun), {"c": (east, north), "d": data, "p1": np.array(region[::2]), "p2": np.array(region[1::2])}
+        yield "convexhull_mask_grid_projection_" + pname, (lambda f: lambda a: vd.convexhull_mask(a["d"], grid=a["g"], projection=f))(pfun), {"d": (east, north), "g": grid}
     yield "project_region", lambda a: vd.project_region(a["region"], proj), {"region": np.array(region)}
     yield "project_grid", lambda a: vd.project_grid(a["g"], proj, method="linear"), {"g": grid["v"]}
     yield "project_grid_nearest_noaa", lambda a: vd.project_grid(a["g"], proj, method="nearest", antialias=False), {"g": grid["v"]}
